@@ -71,10 +71,13 @@ CLAIMS = {
    text="Undo-log content for coinbase lockups: when vm.AddNewLock overwrites a stored lockup record, the undo data it returns (the only input of the reorg rollback for that key) records the delegate that was stored, not the delegate of the update, and no undo data is returned when nothing was overwritten; discharged for every exit of the real function. A defect of exactly this kind was found by this obligation and repaired (fixed: afeeeaad).",
    note="This is one obligation of the property, not the property: the rollback loop of HeaderChain.SetCurrentHeader (one 250-line function with nested loops over database batches), the created/spent UTXO logs, address indexes, canonical-hash and head updates, and equality with a node that only saw the winning branch are NOT under contract (a relational invariant over key-string maps per loop did not discharge). Assumed: WriteCoinbaseLockupToSlice serialises the delegate it is given (trusted), the delegate returned by ReadCoinbaseLockup is a function of its arguments (assumed clause).",
    design="4 (C10)", technique="contract-based deductive verification: postcondition on the undo record with uninterpreted naming of the stored value, VCs from go/ssa, z3/cvc5"),
+ "C02": dict(
+   text="The straight-line money movements of a Quai transaction, with balances as ghost debit/credit counters of the vm.StateDB interface: buyGas debits exactly gas-limit x price or nothing (and records initialGas = gas limit); refundGas credits exactly remaining-gas x price, debits nothing, and the remaining gas grows by at most used/quotient (so the net charge lies between (used - used/q) x price and gas-limit x price); core.Transfer debits and credits the same amount or neither; EVM.create / Create / Create2 end in an error only with the mutation counter at its entry value (except the known ErrCodeStoreOutOfGas finding).",
+   note="NOT decided: the sum-of-all-balances invariant through the interpreter loop and every opcode, ETX value leaving the ledger, self-destruct refund, non-negativity of balances (GetBalance is an uninterpreted read). Assumed (trusted): vm.StateDB.SubBalance/AddBalance ghost accounting, GetRefund is a function of (state, version), Message.Gas is a function of the message.",
+   design="4 (C02)", technique="contract-based deductive verification: per-exit postconditions with ghost debit/credit counters, VCs from go/ssa, z3/cvc5"),
 }
 
 NA = {
- "C02": "value conservation needs the sum over all accounts as ghost state threaded through the interpreter loop and every opcode; the call-kind frame contracts (claimed under C12) and the transfer contract are the reachable part, the sum invariant itself is not discharged (DESIGN 4, C02)",
  "C11": "crash points quantify over prefixes of the DB write sequence plus a restart; no per-call contract (pre/post/invariant/lemma) expresses it (DESIGN 4, C11)",
  "C18": "needs an inductive representation invariant over a recursive interface-typed node graph plus hash injectivity; not within reach of a self-written VC generator (DESIGN 4, C18)",
 }
